@@ -246,6 +246,10 @@ def run(pid, tier, replay_file=None):
                 key = ("C07", tag, sig)
             rep.violation(key, msg, dict(state=st, observed=_slim(ob), tag=tag))
 
+    desc_cov = {}
+    if pid == "C07" and not replay_file:
+        import checks_desc
+        desc_cov = checks_desc.collect(rep, tier)
     bfs, sim, seed = info.get("bfs", {}), info.get("sim", {}), info.get("seed", {})
     if not replay_file and len(nontrivial) < 2:
         raise MachineryError("vacuity: no non-trivial case")
@@ -269,6 +273,11 @@ def run(pid, tier, replay_file=None):
         tlc=dict(bfs=bfs, seeds=seed, sim=sim, trace_validation=adj),
         drift=dict(drift), events_adjudicated=min(len(ev_index), MAX_EVENTS), events_total=len(ev_index),
     )
+    if desc_cov:
+        coverage["descriptions"] = desc_cov
+        coverage["states"] += desc_cov["desc_states"] + desc_cov["desc_tlc_states"]
+        coverage["transitions"] += desc_cov["desc_transitions"]
+        coverage["traces_validated_against_impl"] += desc_cov["desc_replayed"]
     return rep.finish(coverage, time.time() - t0,
                       assumptions=["A1 bounded exhaustiveness", "A3 regex family",
                                    "A7 Draft6.tla / Meta.tla are the reference"])
